@@ -31,13 +31,17 @@ def parse_rowname(n):
     m = re.match(r"vCPU (\d+)\.\*$", n)
     if m:
         return ["vCPU", int(m.group(1)), -1]
+    m = re.match(r"~CPU\s+(\d+)$", n)
+    if m:
+        return ["~CPU", int(m.group(1)), -1]
     return [n, -1, -1]
 
 
-def project(td, kind, streams, last):
-    prv = emu.Prv(os.path.join(td, kind + ".prv"))
-    pcf = emu.Pcf(os.path.join(td, kind + ".pcf"))
-    row = emu.Row(os.path.join(td, kind + ".row"))
+def project(td, kind, streams, last, base=None):
+    base = base or kind
+    prv = emu.Prv(os.path.join(td, base + ".prv"))
+    pcf = emu.Pcf(os.path.join(td, base + ".pcf"))
+    row = emu.Row(os.path.join(td, base + ".row"))
     if prv.bad:
         raise ValueError("unparsable PRV lines: %r" % prv.bad[:3])
     return {"e": "prv", "kind": kind, "dur": prv.duration if prv.duration is not None else -1,
@@ -63,19 +67,28 @@ def streams_of_system(system):
     return out
 
 
-def run_model_history(bdir, system, events):
+def run_model_history(bdir, system, events, breakdown=False):
     d = core.mkscratch("prv")
     try:
         td = os.path.join(d, "ovni")
         conc = [emuhist.concretise(e) for e in events]
+        extra = emuhist.meta_extra_for(system)
+        if breakdown:
+            for k in range(1, len(system["threads"]) + 1):
+                extra.setdefault(k, {})["nosv.can_breakdown"] = True
         clocks = synth.materialise(td, system, conc, models=emuhist.require_for(set(system["models"])),
-                                   meta_extra=emuhist.meta_extra_for(system))
-        r = emu.ovniemu(bdir, td, ("-l",))
+                                   meta_extra=extra)
+        r = emu.ovniemu(bdir, td, ("-b", "-l") if breakdown else ("-l",))
         if not r.accepted:
             return None, r
         last = max(clocks) - min(clocks)
         st = streams_of_system(system)
-        return [project(td, "thread", st, last), project(td, "cpu", st, last)], r
+        out = [project(td, "thread", st, last), project(td, "cpu", st, last)]
+        if breakdown:
+            for name in ("nosv-breakdown", "nanos6-breakdown"):
+                if os.path.exists(os.path.join(td, name + ".prv")):
+                    out.append(project(td, "breakdown", st, last, base=name))
+        return out, r
     except ValueError as ex:
         return [{"e": "prv", "kind": "unparsable", "error": str(ex)}], None
     finally:
@@ -95,6 +108,38 @@ def run_sys_case(bdir, case):
         return [project(td, "thread", case["streams"], last), project(td, "cpu", case["streams"], last)], r
     finally:
         shutil.rmtree(d, ignore_errors=True)
+
+
+def special_families():
+    """harness-enumerated inputs for configurations the bounded models do not have: task types shared and
+    private to several processes, and breakdown traces (-b) over two looms"""
+    def E(th, m, a=None, j=False):
+        return {"th": th, "m": m, "mc": m[0], "a": a or [], "j": j}
+    jobs = []
+    for mc, ex in (("V", lambda t, k: E(t, "VTx", [k, 0])), ("6", lambda t, k: E(t, "6Tx", [k]))):
+        Y, Tc = mc + "Yc", mc + "Tc"
+        end = (lambda t, k: E(t, "VTe", [k, 0])) if mc == "V" else (lambda t, k: E(t, "6Te", [k]))
+        for nl in (1, 2):
+            system = {"threads": [{"tid": 101, "pid": 1001, "app": 1, "loom": 1, "rank": -1},
+                                  {"tid": 201, "pid": 2001, "app": 2, "loom": nl, "rank": -1}],
+                      "cpus": [{"loom": 1, "idx": 0, "phy": 10, "virt": False}, {"loom": 1, "idx": 1, "phy": 11, "virt": False},
+                               {"loom": 1, "idx": -1, "phy": -1, "virt": True}] +
+                              ([{"loom": 2, "idx": 0, "phy": 20, "virt": False}, {"loom": 2, "idx": 1, "phy": 21, "virt": False},
+                                {"loom": 2, "idx": -1, "phy": -1, "virt": True}] if nl == 2 else []),
+                      "marks": [], "models": ["O", mc]}
+            for order in ((5, 6, 5, 7), (5, 6, 7, 5), (6, 5, 5, 7)):
+                # process 1 declares labels a,b ; process 2 declares c,d (one shared, one private)
+                a, b, c, d = order
+                evs = [E(1, "OHx", [0, 101, 7]), E(2, "OHx", [1 if nl == 1 else 0, 201, 7])]
+                for t, (l1, l2) in ((1, (a, b)), (2, (c, d))):
+                    evs += [E(t, Y, [1, l1], True), E(t, Y, [2, l2], True), E(t, Tc, [1, 1]), E(t, Tc, [2, 2])]
+                for t in (1, 2):
+                    for k in (1, 2):
+                        evs += [ex(t, k), end(t, k)]
+                evs += [E(1, "OHe"), E(2, "OHe")]
+                jobs.append(("model:multiproc-task-types", system, evs))
+                jobs.append(("breakdown:multiproc-%dlooms" % nl, system, evs))
+    return jobs
 
 
 def main(pid, tier):
@@ -126,10 +171,12 @@ def main(pid, tier):
         jobs.append(("system", None, c))
     ck.phase("tlc_system")
 
+    jobs += special_families()
+
     def one(j):
         if j[0] == "system":
             return run_sys_case(bdir, j[2])
-        return run_model_history(bdir, j[1], j[2])
+        return run_model_history(bdir, j[1], j[2], breakdown=j[0].startswith("breakdown"))
 
     results = core.pmap(one, jobs)
     execs = []
